@@ -180,15 +180,51 @@ def run(index: RepoIndex, rep) -> None:
                         if src(a) == np_ and isinstance(b, ast.Constant):
                             return (b.value == nm) == isinstance(e.ops[0], ast.Eq)
                 return None
+            # a module-level table from names to per-object representation classes
+            # (`TYPES[name]` inside try / except KeyError): for a fixed name the lookup is its
+            # entry, and raises only when the name is not a key
+            tables = {}
+            for tn, tvals in f.module.assigns.items():
+                tv = tvals[0] if len(tvals) == 1 else None
+                if isinstance(tv, ast.Call) and src(tv.func).split('.')[-1] in (
+                        'MappingProxyType', 'dict') and len(tv.args) == 1:
+                    tv = tv.args[0]
+                if isinstance(tv, ast.Dict) and tv.keys and all(
+                        isinstance(k_, ast.Constant) and isinstance(k_.value, str)
+                        for k_ in tv.keys):
+                    tables[tn] = {k_.value: v_ for k_, v_ in zip(tv.keys, tv.values)}
+
+            def raises_(fm, nm=nm):
+                if fm[0] != 'raises':
+                    return None
+                looks = [n_ for n_ in ast.walk(fm[2]) if isinstance(n_, ast.Subscript)
+                         and isinstance(n_.value, ast.Name) and n_.value.id in tables
+                         and src(n_.slice) == np_]
+                body_calls = [n_ for b_ in fm[2].body for n_ in ast.walk(b_)
+                              if isinstance(n_, ast.Call)]
+                if len(looks) == 1 and not body_calls:
+                    return nm not in tables[looks[0].value.id]
+                return None
+
+            class _Look(ast.NodeTransformer):
+                def visit_Subscript(self, n_):
+                    self.generic_visit(n_)
+                    if isinstance(n_.value, ast.Name) and n_.value.id in tables and \
+                            src(n_.slice) == np_ and nm in tables[n_.value.id]:
+                        import copy as _cp
+                        return _cp.deepcopy(tables[n_.value.id][nm])
+                    return n_
             outcome = None
             for e in w.events:
                 if e.kind in ('return', 'raise') and \
-                        truth_under(strip_iter(e.guard), atom_truth) is True:
+                        truth_under(strip_iter(e.guard), atom_truth, raises_) is True:
                     outcome = e
                     break
             d = None
             if outcome is not None and outcome.kind == 'return' and outcome.value is not None:
-                v = expand_under(w, outcome.value, atom_truth)
+                v = expand_under(w, outcome.value, atom_truth, other=raises_)
+                v = ast.fix_missing_locations(_Look().visit(v))
+                v = ast.parse(ast.unparse(v), mode='eval').body
                 if isinstance(v, ast.Call) and src(v.func) == f'Dict{kind}Representation' and \
                         len(v.args) == 2 and src(v.args[0]) == sp_ and \
                         isinstance(v.args[1], ast.Dict):
